@@ -6,7 +6,8 @@ import common as C
 from props import c14
 
 PROP = 'C04'
-THEOREMS = ['peq_ergodic_stationary', 'peq_general', 'peq_strict_rejects', 'stationary_unique_thm', 'peq_unique', 'stationary_exists_thm']
+THEOREMS = ['peq_ergodic_stationary', 'peq_general', 'peq_strict_rejects', 'stationary_unique_thm', 'peq_unique', 'stationary_exists_thm',
+            'peq_closed_unique_thm', 'peq_closed_found_thm', 'stationary_zero_on_transient_thm', 'guard_example_thm']
 CONFIGS = [dict(jit=True)]
 CONFIGS_THOROUGH = [dict(jit=True), dict(jit=False)]
 RULE = ('row-stochastic matrices from random sparse count matrices with 2..8 states (irreducible, '
@@ -21,8 +22,10 @@ RULE = ('row-stochastic matrices from random sparse count matrices with 2..8 sta
         ' Added classes: one ndarray refilled in place between two calls, Fortran/transposed/strided layouts of the matrix (same result required where the vector is unique), nearly symmetric count matrices with equal row totals, closed classes with a state of stationary probability 1e-6..1e-4.'
         ' Later: the flag as NumPy bool / integer, read-only matrices.')
 TRUSTED = ['LAPACK eig chooses the eigenvector (degenerate eigenspaces are only checked relationally)',
-           'uniqueness is proved for matrices with an entrywise positive power (stationary_unique_thm); for a '
-           'restricted non-ergodic branch the unique solution is certified per case by the exact solver']
+           'first clause proved in full for the model (peq_closed_unique_thm: found, stationary for T, zero outside the class, '
+           'unique among all stationary probability vectors) under the guard that every class with a cycle is aperiodic '
+           '(slightly stronger than the property text, which only asks this of the closed class); the per-case certificate of '
+           'the exact solver is kept but is redundant there']
 ASSUMPTIONS = ['smallest stationary probability well above 1e-8 (threshold-free cases only)']
 BATCH = 300
 TOL = Fraction(1, 10**9)
